@@ -1,7 +1,7 @@
 (* Props/C17.v — property theorems only.  Models: Gen/date_time.v (regenerated
    from /repo/src/pycel/lib/date_time.py every run) over Lib/PyDate.v (CPython's
    calendar algorithms, transcribed); Model/DayTime.v (binary64, hand-written). *)
-From Coq Require Import ZArith List.
+From Coq Require Import ZArith List Bool.
 From PV Require Import Lib.Py Lib.PyDate Proofs.C17Cal Proofs.C17Base Proofs.C17 Model.DayTime.
 From PV Require Import Proofs.C17Carry Proofs.C17Months Proofs.C17Total Proofs.C17Yearfrac Model.DateFuncs.
 From PV Require Gen.excelutil.
@@ -175,3 +175,18 @@ Theorem C17_yearfrac_symmetric : forall a b basis,
   date_time.f_yearfrac (VInt a) (VInt b) basis = date_time.f_yearfrac (VInt b) (VInt a) basis.
 Proof. exact yearfrac_symmetric. Qed.
 Print Assumptions C17_yearfrac_symmetric.
+
+(* ... and through the decorator wrapper, with an integer basis or without one *)
+Theorem C17_yearfrac_wrapped_symmetric : forall a b bs,
+  X_yearfrac [VInt a; VInt b; VInt bs] = X_yearfrac [VInt b; VInt a; VInt bs]
+  /\ X_yearfrac [VInt a; VInt b] = X_yearfrac [VInt b; VInt a].
+Proof. exact yearfrac_wrapped_symmetric. Qed.
+Print Assumptions C17_yearfrac_wrapped_symmetric.
+
+(* MONTH CARRY on the generated DATE: 12 months are one year, for ALL integer
+   months, days and k (both years in 1900..9999), whatever the result is *)
+Theorem C17_date_month_carry : forall y m d k, 1900 <= y <= 9999 -> 1900 <= y + k <= 9999 ->
+  date_time.f_date (VInt y) (VInt (m + 12 * k)) (VInt d)
+  = date_time.f_date (VInt (y + k)) (VInt m) (VInt d).
+Proof. exact date_month_carry. Qed.
+Print Assumptions C17_date_month_carry.
